@@ -58,7 +58,7 @@ def values(kind, tier):
     if c != 'pos':
         out.append(0.0)
         out.append(0)
-    out += [1, 3, 1000]                    # integer-valued quantities
+    out += [1, 3, 1000, True]              # integer-valued quantities; a bool is an int (taken as 1)
     if c is None:
         out += [-7]
     # subnormal / tiny and huge members for conversion only
@@ -99,10 +99,14 @@ def check_conversion(acc, kind, u, v, x):
     case = {'kind': 'conv', 'qkind': kind, 'u': u, 'v': v, 'x': x}
     K = getattr(gu, kind)
     q = K(x, u)
-    r = q.to(v)
+    site = f'{kind}'
+    try:
+        r = q.to(v)
+    except Exception as ex:
+        acc.violation(f'C05/conv/exception/{type(ex).__name__}/{site}', 'conversion between two units of a kind succeeds', case, {'exc': repr(ex)[:200]})
+        return
     acc.transitions += 1
     exp = si.convert(x, kind, u, v)
-    site = f'{kind}'
     if type(r) is not K or r.unit != v:
         acc.violation(f'C05/conv/type-or-unit/{site}', 'conv result kind/unit', case,
                       {'got': [type(r).__name__, r.unit]})
